@@ -1045,7 +1045,9 @@ impl<'env> Executor<'env> {
             Error::new(ErrorKind::InvalidOperation, "cannot super outside of block")
         }));
 
-        if !state.blocks.get_mut(name).unwrap().push() {
+        // an included template runs with its own set of blocks, which does not
+        // necessarily contain the block the include was placed in.
+        if !state.blocks.get_mut(name).is_some_and(|block| block.push()) {
             return Err(Error::new(
                 ErrorKind::InvalidOperation,
                 "no parent block exists",
